@@ -532,3 +532,58 @@ Proof.
   split; [exact A|]. split; [exact B|]. split; [exact C|].
   rewrite (content_length 64 _ W). apply W.
 Qed.
+
+(** * the same in the vocabulary of Run/Blake.v
+
+    For every hook case [BH] of the correspondence check whose entered counter is a whole number
+    of blocks (words below 2^w) and whose buffered prefix is shorter than a block, whatever the
+    implementation's digest stored in the case: the model value the runner computes IS the
+    specification value it computes ([eval_case]: first component = [Some] second component).
+    So on such a case [run_blake c = true] says: implementation = model = specification
+    continued from the entered state. *)
+From CC Require Run.Runner Run.Blake.
+
+Lemma h_words_length v h : In v [224; 256; 384; 512] -> length (Run.Blake.h_words v h) = 8%nat.
+Proof.
+  cbn [In]. intros [<-|[<-|[<-|[<-|[]]]]]; unfold Run.Blake.h_words; cbv zeta;
+    rewrite map_length, chunks_exact_length;
+    try (unfold Run.Runner.B; rewrite le_split_length); vm_compute; try reflexivity; lia.
+Qed.
+
+Theorem run_hook_model_eq_spec v h t0 t1 blen buffered tlen tail dg :
+  In v [224; 256; 384; 512] ->
+  let sv := Run.Blake.spec_of v in
+  t0 < 2 ^ SB.wbits sv -> t1 < 2 ^ SB.wbits sv ->
+  (t0 + t1 * 2 ^ SB.wbits sv) mod (8 * SB.block_N sv) = 0 ->
+  blen < SB.block_N sv ->
+  fst (fst (Run.Blake.eval_case (Run.Blake.BH v h t0 t1 blen buffered tlen tail dg)))
+  = Some (snd (fst (Run.Blake.eval_case (Run.Blake.BH v h t0 t1 blen buffered tlen tail dg)))).
+Proof.
+  intros Hv. pose proof (h_words_length v h Hv) as Lh. revert Lh.
+  unfold Run.Blake.eval_case. cbv zeta. cbn [fst snd].
+  set (hw := Run.Blake.h_words v h). clearbody hw.
+  assert (Lb : length (Run.Runner.B blen buffered) = N.to_nat blen) by apply le_split_length.
+  set (bf := Run.Runner.B blen buffered) in *. clearbody bf.
+  set (tl := Run.Runner.B tlen tail). clearbody tl.
+  cbn [In] in Hv. destruct Hv as [<-|[<-|[<-|[<-|[]]]]]; intros Lh.
+  - change (Run.Blake.spec_of 224) with SB.blake224.
+    change (Run.Blake.model_from 224) with (digest_from put_block32 32 4 false 28).
+    change (SB.block_N SB.blake224) with 64. change (8 * 64) with 512. change (SB.wbits SB.blake224) with 32.
+    intros H0 H1 Hb Hl.
+    exact (blake224_from_state_words hw t0 t1 bf tl Lh H0 H1 Hb ltac:(lia)).
+  - change (Run.Blake.spec_of 256) with SB.blake256.
+    change (Run.Blake.model_from 256) with (digest_from put_block32 32 4 true 32).
+    change (SB.block_N SB.blake256) with 64. change (8 * 64) with 512. change (SB.wbits SB.blake256) with 32.
+    intros H0 H1 Hb Hl.
+    exact (blake256_from_state_words hw t0 t1 bf tl Lh H0 H1 Hb ltac:(lia)).
+  - change (Run.Blake.spec_of 384) with SB.blake384.
+    change (Run.Blake.model_from 384) with (digest_from put_block64 64 8 false 48).
+    change (SB.block_N SB.blake384) with 128. change (8 * 128) with 1024. change (SB.wbits SB.blake384) with 64.
+    intros H0 H1 Hb Hl.
+    exact (blake384_from_state_words hw t0 t1 bf tl Lh H0 H1 Hb ltac:(lia)).
+  - change (Run.Blake.spec_of 512) with SB.blake512.
+    change (Run.Blake.model_from 512) with (digest_from put_block64 64 8 true 64).
+    change (SB.block_N SB.blake512) with 128. change (8 * 128) with 1024. change (SB.wbits SB.blake512) with 64.
+    intros H0 H1 Hb Hl.
+    exact (blake512_from_state_words hw t0 t1 bf tl Lh H0 H1 Hb ltac:(lia)).
+Qed.
